@@ -10,7 +10,10 @@ import (
 
 	"encoding/json"
 	"fmt"
+	"github.com/cosmos/cosmos-sdk/baseapp"
+	pruningtypes "github.com/cosmos/cosmos-sdk/pruning/types"
 	servertypes "github.com/cosmos/cosmos-sdk/server/types"
+	"github.com/cosmos/cosmos-sdk/store"
 	"github.com/cosmos/cosmos-sdk/x/crisis"
 	"math/big"
 	"pgregory.net/rapid"
@@ -166,6 +169,35 @@ type NodeFlags struct {
 	TimeZone string `json:"time_zone,omitempty"`
 	// DebugLog: the node runs with --log_level debug (every log call formats its arguments)
 	DebugLog bool `json:"debug_log,omitempty"`
+	// app.toml / start flags of the node, none of which is part of the replicated input:
+	Telemetry       bool   `json:"telemetry,omitempty"`         // [telemetry] enabled = true
+	InterBlockCache bool   `json:"inter_block_cache,omitempty"` // inter-block-cache = true (the default of a real node)
+	IAVLCacheSize   int    `json:"iavl_cache_size,omitempty"`   // iavl-cache-size
+	Pruning         string `json:"pruning,omitempty"`           // pruning = "everything" | "nothing" | "default"
+	MinGasPrices    string `json:"min_gas_prices,omitempty"`    // minimum-gas-prices
+	Trace           bool   `json:"trace,omitempty"`             // --trace (stack traces in error logs)
+	TraceStore      bool   `json:"trace_store,omitempty"`       // --trace-store <file>
+	IndexEvents     bool   `json:"index_events,omitempty"`      // index-events = [...]
+	HaltHeight      uint64 `json:"halt_height,omitempty"`       // halt-height far in the future
+}
+
+// DrawNodeFlags draws the node-local options of a replica.
+func DrawNodeFlags(t *rapid.T, label string) NodeFlags {
+	return NodeFlags{
+		SkipGenesisInvariants: rapid.Bool().Draw(t, label+"skipGenesisInvariants"),
+		InvCheckPeriod:        uint(rapid.IntRange(0, 3).Draw(t, label+"invCheckPeriod")),
+		TimeZone:              NodeTimeZones[rapid.IntRange(0, len(NodeTimeZones)-1).Draw(t, label+"timeZone")],
+		DebugLog:              rapid.Bool().Draw(t, label+"debugLog"),
+		Telemetry:             rapid.Bool().Draw(t, label+"telemetry"),
+		InterBlockCache:       rapid.Bool().Draw(t, label+"interBlockCache"),
+		IAVLCacheSize:         []int{0, 1, 100, 781250}[rapid.IntRange(0, 3).Draw(t, label+"iavlCacheSize")],
+		Pruning:               []string{"", "everything", "nothing", "default"}[rapid.IntRange(0, 3).Draw(t, label+"pruning")],
+		MinGasPrices:          []string{"", "0.025uc4e", "1uc4e"}[rapid.IntRange(0, 2).Draw(t, label+"minGasPrices")],
+		Trace:                 rapid.Bool().Draw(t, label+"trace"),
+		TraceStore:            rapid.Bool().Draw(t, label+"traceStore"),
+		IndexEvents:           rapid.Bool().Draw(t, label+"indexEvents"),
+		HaltHeight:            []uint64{0, 1_000_000}[rapid.IntRange(0, 1).Draw(t, label+"haltHeight")],
+	}
 }
 
 // NodeTimeZones are local time zones a node's machine may be set to.
@@ -196,15 +228,64 @@ func (o nodeAppOptions) Get(k string) interface{} { return o[k] }
 func newAppWith(db dbm.DB, f NodeFlags) (*c4eapp.App, appparams.EncodingConfig) {
 	enc := c4eapp.MakeEncodingConfig()
 	var opts servertypes.AppOptions = simapp.EmptyAppOptions{}
-	if f.SkipGenesisInvariants {
-		opts = nodeAppOptions{crisis.FlagSkipGenesisInvariants: true}
+	var bopts []func(*baseapp.BaseApp)
+	var traceStore io.Writer
+	if f != (NodeFlags{InvCheckPeriod: f.InvCheckPeriod, TimeZone: f.TimeZone, DebugLog: f.DebugLog}) {
+		// what the server hands to the application constructor: the node's configuration (app.toml and
+		// start flags) by key, and the baseapp options derived from it
+		o := nodeAppOptions{}
+		if f.SkipGenesisInvariants {
+			o[crisis.FlagSkipGenesisInvariants] = true
+		}
+		o["telemetry.enabled"] = f.Telemetry
+		o["telemetry.service-name"] = "c4e"
+		o["inter-block-cache"] = f.InterBlockCache
+		o["iavl-cache-size"] = f.IAVLCacheSize
+		o["pruning"] = f.Pruning
+		o["minimum-gas-prices"] = f.MinGasPrices
+		o["trace"] = f.Trace
+		o["halt-height"] = f.HaltHeight
+		o["inv-check-period"] = f.InvCheckPeriod
+		if f.IndexEvents {
+			o["index-events"] = []string{"message.action", "transfer.recipient"}
+		}
+		opts = o
+		if f.InterBlockCache {
+			bopts = append(bopts, baseapp.SetInterBlockCache(store.NewCommitKVStoreCacheManager()))
+		}
+		if f.IAVLCacheSize > 0 {
+			bopts = append(bopts, baseapp.SetIAVLCacheSize(f.IAVLCacheSize))
+		}
+		switch f.Pruning {
+		case "everything":
+			bopts = append(bopts, baseapp.SetPruning(pruningtypes.NewPruningOptions(pruningtypes.PruningEverything)))
+		case "nothing":
+			bopts = append(bopts, baseapp.SetPruning(pruningtypes.NewPruningOptions(pruningtypes.PruningNothing)))
+		case "default":
+			bopts = append(bopts, baseapp.SetPruning(pruningtypes.NewPruningOptions(pruningtypes.PruningDefault)))
+		}
+		if f.MinGasPrices != "" {
+			bopts = append(bopts, baseapp.SetMinGasPrices(f.MinGasPrices))
+		}
+		if f.Trace {
+			bopts = append(bopts, baseapp.SetTrace(true))
+		}
+		if f.IndexEvents {
+			bopts = append(bopts, baseapp.SetIndexEvents([]string{"message.action", "transfer.recipient"}))
+		}
+		if f.HaltHeight > 0 {
+			bopts = append(bopts, baseapp.SetHaltHeight(f.HaltHeight))
+		}
+		if f.TraceStore {
+			traceStore = io.Discard
+		}
 	}
 	logger := log.NewNopLogger()
 	if f.DebugLog {
 		logger = log.NewTMLogger(io.Discard)
 	}
-	a := c4eapp.New(logger, db, nil, true, map[int64]bool{}, "/nonexistent-verif-home", f.InvCheckPeriod,
-		enc, opts)
+	a := c4eapp.New(logger, db, traceStore, true, map[int64]bool{}, "/nonexistent-verif-home", f.InvCheckPeriod,
+		enc, opts, bopts...)
 	return a, enc
 }
 
